@@ -2886,3 +2886,59 @@ def rule_empty_component_counts_digits(col, facts):
                 col.check(R, "parse_number:EmptyExponent:count-after-sign", ok2,
                           "the digit count the exponent digits are measured from is read before parse_exponent_sign: for contiguous input the count is the cursor, so the sign byte counts as an exponent digit and `1e+` is accepted", f.loc(sp))
     col.floor(R, "empty-component tests in parse_number", n, 3 if "format" in facts.config else 1)
+
+
+def rule_options_punctuation_pairs(col, facts):
+    """KEY-constraints (options punctuation): is_valid_options_punctuation answers true only if the decimal point
+    and the exponent character differ from each other and - wherever the `format` feature can set them - from the
+    digit separator (feature `format` alone is enough for a separator) and from the base prefix / suffix.
+    Every accepting path is enumerated; with `format` it must carry all the separator comparisons as false, and
+    with `format` + a non-decimal-radix feature also the prefix / suffix ones."""
+    from rules.core import enum_paths, resolve_env, simplify_proj
+    R = "KEY-constraints"
+    f = facts.fn("lexical_util::format_flags::is_valid_options_punctuation")
+    rets = {i for i, b in enumerate(f.blocks) if f.live(i) and b["t"]["k"] == "return"}
+    need = [frozenset(("arg:decimal_point", "arg:exponent"))]
+    if "format" in facts.config:
+        need += [frozenset(("digit_separator", "arg:decimal_point")), frozenset(("digit_separator", "arg:exponent"))]
+        if "power-of-two" in facts.config or "radix" in facts.config:
+            need += [frozenset((g, a)) for g in ("base_prefix", "base_suffix") for a in ("arg:decimal_point", "arg:exponent")]
+
+    def side(x):
+        x = strip_casts(x)
+        if x[0] == "arg":
+            return "arg:" + str(x[2] if len(x) > 2 else x[1])
+        if x[0] == "call" and last_seg(x[1]) in ("digit_separator", "base_prefix", "base_suffix"):
+            return last_seg(x[1])
+        return None
+    n = 0
+    missing_any = None
+    for t, atoms, env in enum_paths(f, 0, rets, want_env=True, resolve_atoms=True):
+        r = env.get(0)
+        val = None
+        pairs = set()
+        if r is not None and r[0] == "const":
+            val = bool(r[1])
+        elif r is not None:
+            e = strip_casts(simplify_proj(resolve_env(r[1], env)))
+            if e[0] == "k":
+                val = bool(e[1])
+            elif e[0] == "bin" and e[1] == "Ne":
+                a_, b_ = side(e[2]), side(e[3])
+                if a_ and b_:
+                    pairs.add(frozenset((a_, b_)))
+                    val = True       # the accepting outcome of a returned comparison
+        if val is not True:
+            continue
+        for a, p in atoms:
+            a = strip_casts(simplify_proj(a))
+            if a[0] == "bin" and a[1] in ("Eq", "Ne") and isinstance(p, bool) and ((a[1] == "Eq") != p):
+                a_, b_ = side(a[2]), side(a[3])
+                if a_ and b_:
+                    pairs.add(frozenset((a_, b_)))
+        n += 1
+        miss = [sorted(x) for x in need if x not in pairs]
+        if miss and missing_any is None:
+            missing_any = miss
+    col.check(R, "is_valid_options_punctuation:pairwise", n >= 1 and missing_any is None,
+              "an accepting path never compares %s: options whose decimal point / exponent character equals that format character are reported valid (separator '.' with the default decimal point: `1.5` parses as 15)" % (missing_any,), f.loc())
